@@ -31,7 +31,8 @@ SolvedBalanced(x) == x.solved => FBalanced(x.out)
 
 (* C02 *)
 OnlyAdds(x)  == (x.arg.parses /\ ~x.placeholder) => HasAtLeast(x.out, x.arg)
-InputEcho(x) == (x.arg.parses /\ ~x.placeholder) => SameMolecules(x.echo, x.arg) /\ x.echo_nomap
+\* (keep_maps: the call was made with remove_aam = False, the maps of the input are then meant to stay)
+InputEcho(x) == (x.arg.parses /\ ~x.placeholder) => SameMolecules(x.echo, x.arg) /\ (x.echo_nomap \/ x.keep_maps)
 
 (* C03 (default threshold) *)
 DeclinedUntouched(x) == (x.threshold = 0 /\ ~x.solved) => x.reaction = x.input_reaction
@@ -51,7 +52,7 @@ OnlyBalancedLabelled(x) ==
     (x.by = "input-balanced" /\ ~x.placeholder) => FBalanced(x.arg) /\ SameMolecules(x.out, x.arg) /\ x.solved
 
 (* C15, output half *)
-NoMapInOutput(x) == x.nomap
+NoMapInOutput(x) == x.nomap \/ x.keep_maps
 
 (* C13, single-run half; conf in thousandths, -1 when absent; thr likewise *)
 ConfInRange(x) == x.by = "mcs-based" => x.conf >= 0 /\ x.conf <= 1000
